@@ -286,3 +286,62 @@ func VerifHarness_C02_reset() {
 	}
 	c02CheckNumbering(r, lg, 1, k, "reset")
 }
+
+func init() { verifRegister("C02_epoch", VerifHarness_C02_epoch) }
+
+// C02_epoch: the application sends from its own goroutine while the session is reset from another (ResetSession on a
+// logged-on session drops the send queue and starts the numbering again at 1). Whatever the interleaving - another
+// thread may also run right after a mutex release here - the wire shows consecutive numbers with at most one restart
+// at 1, the store's next number is one past the last number sent, and what was sent in the current epoch is stored.
+func VerifHarness_C02_epoch() {
+	verifPreemptAtRelease(1 + verifTier())
+	r := verifNewSession(false, BeginStringFIX42)
+	lg := &c02Log{r: r}
+	r.s.log = lg
+	N := ndInt("N", 20, 22) // one symbolic two-digit value: the interleaving carries the case analysis here
+	r.setCounters(5, N)
+	r.verifLoggedOnState(stInSession, 5)
+	threads := []func(){
+		func() { r.s.queueForSend(c02App("A")) },
+		func() {
+			// registry.ResetSession: a Logout goes out (ShutdownNow of a logged-on state), then the queue is dropped
+			// and the store reset; the state is left as it was
+			r.s.State.ShutdownNow(r.s)
+			r.s.dropAndReset()
+		},
+	}
+	if verifTier() == 1 && ndBool("second-sender") {
+		threads = append(threads, func() { r.s.queueForSend(c02App("B")) })
+	}
+	verifParallel(threads...)
+	r.pump()
+	r.s.SendAppMessages(r.s)
+	// the wire: consecutive numbers, at most one restart at 1
+	restarts, prev := 0, 0
+	for i, b := range lg.sent {
+		fs, _ := verifScan(b)
+		w := verifWire{raw: b, fs: fs}
+		seq, ok := w.getInt(34)
+		verifAssert(ok, "epoch-sent-message-numbered")
+		if i > 0 && seq != prev+1 {
+			verifAssert(seq == 1, "epoch-numbers-consecutive-or-restart-at-1")
+			restarts++
+		}
+		if i == 0 {
+			verifAssert(seq == N || seq == 1, "epoch-first-number-is-next-or-1")
+		}
+		prev = seq
+	}
+	verifAssert(restarts <= 1, "epoch-at-most-one-restart")
+	// every message was in the store under its number at the moment it went out (a message numbered before the reset
+	// must not go out after it)
+	verifAssert(lg.notStored == 0, "epoch-stored-no-later-than-sent")
+	next := r.st.NextSenderMsgSeqNum()
+	if len(lg.sent) > 0 && (restarts == 1 || prev < N) {
+		// something was sent in the new epoch: the store continues from it and holds it
+		verifAssert(next == prev+1, "epoch-store-next-number-one-past-last-sent")
+		got, err := r.st.GetMessages(prev, prev)
+		verifAssert(err == nil && len(got) == 1 && verifEqBytes(got[0], lg.sent[len(lg.sent)-1]), "epoch-last-sent-message-is-stored")
+	}
+	verifObserve("sent", len(lg.sent))
+}
